@@ -103,10 +103,10 @@ PROPS = {
         "assumptions": ["a failure = one cluster-side phase failing (or the process dying there) with release storage itself working; storage-write failures are C01's finding success-with-storage-write-failure"],
     },
     "C06": {
-        "corr": [("dryrun", {"quick": 1200, "thorough": 30000}), ("actions", {"quick": 500, "thorough": 12000}), ("kube", {"quick": 800, "thorough": 20000})],
+        "corr": [("dryrun", {"quick": 1200, "thorough": 30000}), ("actions", {"quick": 500, "thorough": 12000}), ("kube", {"quick": 800, "thorough": 20000}), ("dryruncli", {"quick": 1, "thorough": 1})],
         "also": ["C01:model:", "C02:model:"],
         "trusted_base": [
-            "modelled, not verified: helm template's command-line wiring (pkg/cmd/template.go sets DryRun/ClientOnly on action.Install; the harness drives action.Install with those fields), post-renderers and CRD directories (the crash/render sweeps of C05/C20 exercise them without a model); observed: request log of the simulated API server and call log of the recording storage wrapper",
+            "command-line wiring: the real helm template / install / upgrade commands (pkg/cmd, run as cmd/helm runs them, in child processes) are exercised in every dry-run spelling against a recording API server (monitor only, no model: any mutating request, or any request of a client-only template, is a violation); modelled, not verified: post-renderers and CRD directories (the crash/render sweeps of C05/C20 exercise them without a model); observed: request log of the simulated API server and call log of the recording storage wrapper",
         ],
         "assumptions": ["dry-run spellings are those the action structs accept (DryRun bool + DryRunOption client|server|true); reads (GET) are allowed in every mode but client-only"],
     },
